@@ -780,6 +780,11 @@ func (in *exInfo) classify(s exStore) {
 		}
 	}
 	docs[in.Root] = true
+	for k := range in.Nodes {
+		if exPointerThroughRef(s, k) {
+			in.Tags["ptr-through-ref"] = true // finding F24: what such a reference designates depends on how far the live root is expanded
+		}
+	}
 	in.Tags["docs:"+strconv.Itoa(len(docs))] = true
 	ru, _ := url.Parse(in.Root)
 	for d := range docs {
@@ -843,11 +848,10 @@ func (in *exInfo) knownShape() string {
 		return "id"
 	case in.Tags["prefix-sibling"]:
 		return "prefix-sibling-doc"
-	case in.Tags["chain2"]:
-		return "param-chain-second-hop"
-	case in.Tags["imported-circular"]:
-		return "response-imported-circular"
+	case in.Tags["ptr-through-ref"]:
+		return "pointer-through-ref" // F24: resolved (or not) in the partially expanded live root
 	}
+	// (multi-hop chains and circular schemas under imported elements were the areas of F7 and F8: repaired, no longer set apart)
 	return ""
 }
 
